@@ -215,6 +215,20 @@ def c20_oracle(rec, dh, sub, mp, limit, coords, ref, rb):
                              "shape %s, level header declares %s" % (getattr(a2, "shape", None), want.shape))
                 elif a2.tobytes() != np.ascontiguousarray(want).tobytes():
                     rec.fail("accepted_but_wrong_values", dict(sub, level=lv, box=b, selector=str(sel)), "selector forms disagree")
+        # one stream object read box after box (list selector not starting at field 0)
+        if nf >= 2:
+            nbx = len(pck.cells[lv]["indexes"])
+            with vpool.controlled():
+                def stream():
+                    s_ = pck[list(range(1, nf))][lv]
+                    return [s_[b] for b in range(nbx)], [pck[:][lv][b] for b in range(nbx)]
+                st3, v3 = call(stream)
+            if st3 == "exc":
+                rec.fail("accepted_but_unreadable", dict(sub, level=lv, selector="one stream object"), exc_text(v3))
+            elif not all(isinstance(x, np.ndarray) and isinstance(y, np.ndarray) and x.shape == y[..., 1:].shape
+                         and x.tobytes() == np.ascontiguousarray(y[..., 1:]).tobytes() for x, y in zip(*v3)):
+                rec.fail("accepted_but_wrong_values", dict(sub, level=lv, selector="one stream object"),
+                         "reads through one re-used stream object disagree with fresh reads")
 
 
 SIGNATURES = {}
